@@ -495,6 +495,126 @@ func (t *TS) evalCond(cond ssa.Value, ps *pstate, env TSEnv) (bool, bool) {
 	if c, ok := cond.(*ssa.Const); ok && c.Value != nil && c.Value.Kind() == constant.Bool {
 		return constant.BoolVal(c.Value), true
 	}
+	if u, ok := cond.(*ssa.UnOp); ok && u.Op == token.NOT {
+		if v, known := t.evalCond(u.X, ps, env); known {
+			return !v, true
+		}
+		return false, false
+	}
+	// a pure predicate of the package over values known on this path (isCopyMessage(t) with t bound by the arm)
+	if call, ok := cond.(*ssa.Call); ok {
+		if v, known := t.evalPredicate(call, env); known {
+			return v, true
+		}
+	}
+	return false, false
+}
+
+// evalPredicate interprets a call of a small side-effect-free boolean function of the analysed scope whose
+// arguments are constants under env: comparisons, negation, short-circuit control flow and merges only. Anything
+// else (a call, a load, an unknown operand that decides a branch) leaves the result unknown.
+func (t *TS) evalPredicate(call *ssa.Call, env TSEnv) (bool, bool) {
+	callee := StaticCallee(call)
+	if callee == nil || callee.Blocks == nil || !t.P.InScope(callee) || len(callee.Blocks) > 16 {
+		return false, false
+	}
+	res := callee.Signature.Results()
+	if res.Len() != 1 {
+		return false, false
+	}
+	if bt, isB := res.At(0).Type().Underlying().(*types.Basic); !isB || bt.Kind() != types.Bool {
+		return false, false
+	}
+	vals := map[ssa.Value]constant.Value{}
+	for i, prm := range callee.Params {
+		if i < len(call.Call.Args) {
+			if cv, ok := constOf(call.Call.Args[i], env); ok {
+				vals[prm] = cv
+			}
+		}
+	}
+	var get func(v ssa.Value) (constant.Value, bool)
+	get = func(v ssa.Value) (constant.Value, bool) {
+		if cv, ok := vals[v]; ok {
+			return cv, true
+		}
+		switch x := v.(type) {
+		case *ssa.Const:
+			if x.Value == nil {
+				return nil, false
+			}
+			return x.Value, true
+		case *ssa.ChangeType:
+			return get(x.X)
+		case *ssa.Convert:
+			if cv, ok := get(x.X); ok {
+				if bt, isb := x.Type().Underlying().(*types.Basic); isb && bt.Info()&types.IsInteger != 0 && cv.Kind() == constant.Int {
+					return cv, true
+				}
+			}
+		}
+		return nil, false
+	}
+	cur := callee.Blocks[0]
+	var prev *ssa.BasicBlock
+	for steps := 0; steps < 64; steps++ {
+		var next *ssa.BasicBlock
+		for _, in := range cur.Instrs {
+			switch x := in.(type) {
+			case *ssa.Phi:
+				for i, pb := range cur.Preds {
+					if pb == prev {
+						if cv, ok := get(x.Edges[i]); ok {
+							vals[x] = cv
+						}
+					}
+				}
+			case *ssa.BinOp:
+				a, oka := get(x.X)
+				b, okb := get(x.Y)
+				if oka && okb {
+					switch x.Op {
+					case token.EQL, token.NEQ, token.LSS, token.LEQ, token.GTR, token.GEQ:
+						if a.Kind() == b.Kind() && a.Kind() != constant.Bool || a.Kind() == constant.Bool && b.Kind() == constant.Bool && (x.Op == token.EQL || x.Op == token.NEQ) {
+							vals[x] = constant.MakeBool(constant.Compare(a, x.Op, b))
+						}
+					}
+				}
+			case *ssa.UnOp:
+				if x.Op != token.NOT {
+					return false, false
+				}
+				if a, ok := get(x.X); ok && a.Kind() == constant.Bool {
+					vals[x] = constant.MakeBool(!constant.BoolVal(a))
+				}
+			case *ssa.ChangeType, *ssa.Convert, *ssa.DebugRef:
+			case *ssa.If:
+				cv, ok := get(x.Cond)
+				if !ok || cv.Kind() != constant.Bool {
+					return false, false
+				}
+				if constant.BoolVal(cv) {
+					next = cur.Succs[0]
+				} else {
+					next = cur.Succs[1]
+				}
+			case *ssa.Jump:
+				next = cur.Succs[0]
+			case *ssa.Return:
+				cv, ok := get(x.Results[0])
+				if !ok || cv.Kind() != constant.Bool {
+					return false, false
+				}
+				return constant.BoolVal(cv), true
+			default:
+				return false, false
+			}
+		}
+		if next == nil {
+			return false, false
+		}
+		prev, cur = cur, next
+	}
 	return false, false
 }
 
